@@ -86,7 +86,9 @@ def volume_bytes(entries_raw, saved_hashes, number, data, count=None, flo=0x60, 
 class SpecSet1:
     """files: list of (name str, data, saved bool); an independent PAR 1.0 writer"""
 
-    def __init__(self, files, nvol, comment=b""):
+    def __init__(self, files, nvol, comment=b"", client=0):
+        # client: the 4 bytes at 0x0C, the generating program's own id/version (free for the writer to choose)
+        self.version = ((client & 0xFFFFFFFF) << 32) | 0x00010000
         self.files = files
         self.nvol = nvol
         self.comment = comment
@@ -95,10 +97,10 @@ class SpecSet1:
         self.hashes = [md5(d) for n, d, s in files if s]
 
     def index(self):
-        return volume_bytes(self.entries, self.hashes, 0, self.comment)
+        return volume_bytes(self.entries, self.hashes, 0, self.comment, version=self.version)
 
     def volume(self, v):
-        return volume_bytes(self.entries, self.hashes, v, parity_volume([d for _, d in self.saved], v))
+        return volume_bytes(self.entries, self.hashes, v, parity_volume([d for _, d in self.saved], v), version=self.version)
 
     def archive(self, base, vols=None):
         out = {DIR + "/" + base + ".par": self.index()}
